@@ -191,6 +191,8 @@ def check_obstacle(r, ctx):
         t, a = ob["_motion"]
         with warnings.catch_warnings():
             warnings.simplefilter("ignore")
+            if times_of(ob):
+                obj.occupancy_at_time(times_of(ob)[0])   # the very time step that is asked for first after the motion
             obj.translate_rotate(np.array(t, dtype=float), a)
             for ts in times_of(ob):
                 exp = expected_occupancy(ob, ts)
